@@ -106,6 +106,19 @@ class C08(Check):
                    "fewer than 1000 distinct prompts per history (cache size limit not reached)"]
 
     # -- generation --------------------------------------------------------
+    def translate(self):
+        # the four breaker methods of CoherentFeedForwardLoop -> coq/gen/Gen_C08.v (coq/C08/GenOk.v proves them equal
+        # to the model's breaker automaton); fail closed
+        from translators import c08_gen
+        try:
+            txt = c08_gen.emit(common.REPO / "operon_ai/topology/loops.py")
+        except Exception as e:
+            common.write_if_changed(common.GEN / "Gen_C08.v",
+                                    "(* translators/c08_gen.py could not translate the current source: "
+                                    + str(e).replace("*)", "* )") + " *)\nDefinition translation_failed : True := I I.\n")
+            raise
+        common.write_if_changed(common.GEN / "Gen_C08.v", txt)
+
     def _rand_cfg(self, rng):
         thr = rng.choice([1, 1, 1, 2, 2, 2, 3, 3, 4, 4, 0, 5, -1, 2, 3])
         timeout = rng.choice([2 * US, 2 * US, 10 * US, 10 * US, US // 2, 60 * US, 1, 0])
